@@ -170,7 +170,7 @@ def obligations(tier):
     for ext in (False, True):
         for ports in ([], [0], [1], [2, 1]):
             add("rtpg/ext=%s/ports=%s" % (ext, ports), "h_simple", fmt="rtpg", arg=[ext, ports])
-    for i, pages in enumerate([[], [[2, 0, 0, 1]], [[1, 0, 0, 2]], [[3, 1, 0, 1]], [[4, 1, 1, 1]], [[2, 0, 0, 1], [4, 0, 0, 1]]]):
+    for i, pages in enumerate([[], [[2, 0, 0, 1]], [[1, 0, 0, 2]], [[3, 1, 0, 1]], [[2, 0, 1, 1]], [[4, 1, 1, 1]], [[2, 0, 0, 1], [4, 0, 1, 1]]]):
         add("readelementstatus/%d:%s" % (i, pages), "h_simple", fmt="readelementstatus", arg=pages)
     for kind in R.TRANSPORT_KINDS:
         for nl in ((9,) if not kind.startswith("iscsi") else ((1, 2, 3, 4, 5, 11, 12) if q else range(1, 41))):
